@@ -17,6 +17,6 @@ out=/tmp/wt/logs/confirm-$p-$n.txt; mkdir -p /tmp/wt/logs; : > $out
 ) 9> /tmp/wt/$p.lock
 rm -rf $w; git -C /repo worktree add -q --detach $w HEAD || exit 3
 cd $w && git apply $src/patch.diff
-/tmp/wt/run_baseline.sh $w >> $out 2>&1
+/verif/tools/run_baseline.sh $w >> $out 2>&1
 cd /; git -C /repo worktree remove --force $w
 cat $out
